@@ -33,7 +33,7 @@ class Env:
         env["CARGO_NET_OFFLINE"] = "true"
         # `touch` so that rustc re-emits the MIR even when nothing changed
         os.utime("/repo/fe2o3-amqp/src/lib.rs", None) if os.access("/repo/fe2o3-amqp/src/lib.rs", os.W_OK) else None
-        cmd = ["cargo", "+nightly", "rustc", "-p", "fe2o3-amqp", "--lib", "--offline", "--features", "acceptor,transaction", "--target-dir", os.path.join(BUILD, "mir", "target"), "--", "-Zunpretty=mir", "-C", "overflow-checks=on", "-C", "debug-assertions=off"]
+        cmd = ["cargo", "+nightly", "rustc", "-p", "fe2o3-amqp", "--lib", "--offline", "--features", "acceptor,transaction,scram", "--target-dir", os.path.join(BUILD, "mir", "target"), "--", "-Zunpretty=mir", "-C", "overflow-checks=on", "-C", "debug-assertions=off"]
         p = subprocess.run(cmd, cwd="/repo", env=env, stdout=subprocess.PIPE, stderr=subprocess.PIPE, text=True)
         with open(log, "w") as f:
             f.write(p.stderr)
@@ -183,7 +183,7 @@ def mvalidate_exe(log):
         import shutil
 
         shutil.copy("/repo/Cargo.lock", os.path.join(crate, "Cargo.lock"))
-    p = subprocess.run(["cargo", "build", "--offline", "--bin", "mvalidate", "--target-dir", tdir], cwd=crate, env=env, stdout=subprocess.PIPE, stderr=subprocess.STDOUT, text=True)
+    p = subprocess.run(["cargo", "build", "--offline", "--features", "scram", "--bin", "mvalidate", "--target-dir", tdir], cwd=crate, env=env, stdout=subprocess.PIPE, stderr=subprocess.STDOUT, text=True)
     with open(log, "a") as f:
         f.write(p.stdout)
     if p.returncode != 0:
